@@ -158,6 +158,7 @@ def do_yield(ip, y, st):
             for k, cl in enumerate(ip.c.abandon):
                 from .calls import eval_spec
                 ip.emit("abandon", "abandon#%d@yield" % k, s2, eval_spec(ip, s2, env, cl, old=ip.entry))
+            suspend_havoc(ip, s2)
             outs.append(("next", s2, None))
             outs += abandon_here(ip, s2)
             continue
@@ -175,9 +176,34 @@ def do_yield(ip, y, st):
         for k, cl in enumerate(ip.c.abandon):
             from .calls import eval_spec
             ip.emit("abandon", "abandon#%d@yield" % k, s2, eval_spec(ip, s2, env, cl, old=ip.entry))
+        suspend_havoc(ip, s2)
         outs.append(("next", s2, None))
         outs += abandon_here(ip, s2)
     return outs
+
+
+def suspend_havoc(ip, st):
+    """Contract(ghost={"suspended_changes": ["self.field", ...]}): while a generator is suspended at a yield other code
+    runs and may re-bind these fields of a SHARED object (an element re-used by a second pipeline gets a new static
+    context, ...); on resumption (and on abandonment) each listed field holds a value nothing is known about.  Loops that
+    contain a yield must list the same fields in LoopSpec(havoc=[...]) -- the syntactic loop havoc does not see them."""
+    names = (ip.c.ghost.get("suspended_changes") if ip.c is not None else None) or ()
+    if not names or st.depth:
+        return
+    from .sym import ObjCell
+    for nm in names:
+        base, _, field = nm.partition(".")
+        obj = st.env.get(base)
+        if not (isinstance(obj, Ref) and isinstance(st.heap.get(obj.cid), ObjCell)) or not field or "." in field:
+            raise U("suspended_changes: %s is not a field of an object parameter" % nm)
+        cell = st.heap[obj.cid]
+        cs = ip.contracts.classes.get(cell.cls)
+        if cs is None or field not in cs.fields:
+            raise U("suspended_changes: %s has no declared type" % nm)
+        fields = dict(cell.fields)
+        fields[field] = ip.make(cs.fields[field], "%s@resume" % nm, st)
+        st.heap[obj.cid] = ObjCell(cell.cls, fields)
+    ip.assumptions.add("re-entrancy: only the fields %s change while %s is suspended at a yield" % (", ".join(names), ip.c.name))
 
 
 def abandon_here(ip, st):
@@ -1122,7 +1148,11 @@ def havoc_loop(ip, node, h, spec, body_nodes):
             havoc_value(ip, h, h.env["out"], "out")
     if elem_state and "$elst" in h.env:
         h.env["$elst"] = Opaque(ip.reg.new("elst", "(Array Obj St)"))
-    for extra in (spec.havoc or []):
+    extras = list(spec.havoc or [])
+    if yields and ip.c is not None and ip.c.ghost.get("suspended_changes"):
+        # fields other code may re-bind while the generator is suspended at a yield of this loop (see suspend_havoc)
+        extras += [x for x in ip.c.ghost["suspended_changes"] if x not in extras]
+    for extra in extras:
         from .calls import places_of
         kind, base, field = places_of(ip, h, h.env, extra)
         if kind == "field":
